@@ -609,6 +609,12 @@ class VariantBase(productmd.common.MetadataBase):
 
         variant.validate()
         variant_id = variant_id or variant.id
+        # UIDs are unique in the whole tree ($variant-optional on top-level vs. an optional child of $variant)
+        root = getattr(self._metadata, "variants", None)
+        if isinstance(root, VariantBase):
+            for other in root.get_variants(recursive=True):
+                if other is not variant and other.uid == variant.uid:
+                    raise ValueError("Variant UID already exists: %s" % variant.uid)
         if hasattr(self, "parent"):
             parents = self._get_all_parents()
             if variant in parents:
